@@ -174,6 +174,8 @@ class ComputationCache:
         """
         for fitness_key, value in fitness_values.items():
             self._fitness_cache[fitness_key] = value
+            # Keep the covered verdict in line with the fitness, see _compute_fitness.
+            self._is_covered_cache[fitness_key] = math.isclose(value, 0.0)
 
     def get_fitness(self) -> float:
         """Provide a sum of the current fitness values.
